@@ -120,11 +120,11 @@ Print Assumptions C06_refuted_unfixed.
 Definition ex_root : path := ["repo"%string].
 Definition ex_C : species := {| sym := "C"; znum := 6 |}.
 Definition ex_history : list call :=
-  [ APec PExc (Some ex_root) ex_C 5 (LInt 3, LInt 2) {| t_ok := true; t_val := 1%positive |};
-    AAdf11 FCont (Some ex_root) ex_C 2 {| t_ok := true; t_val := 2%positive |};
-    UAdf11 FLine (Some ex_root) [(ex_C, [(1, {| t_ok := true; t_val := 3%positive |}); (7, {| t_ok := true; t_val := 4%positive |})])];
-    APec PExc (Some ex_root) ex_C 5 (LStr "3", LStr "2") {| t_ok := true; t_val := 5%positive |};
-    IAdf11 FIon None [(ex_C, [(1, {| t_ok := true; t_val := 6%positive |})])] ].
+  [ APec PExc (Some ex_root) ex_C 5 (LInt 3, LInt 2) (leaf_ok 1%positive);
+    AAdf11 FCont (Some ex_root) ex_C 2 (leaf_ok 2%positive);
+    UAdf11 FLine (Some ex_root) [(ex_C, [(1, (leaf_ok 3%positive)); (7, (leaf_ok 4%positive))])];
+    APec PExc (Some ex_root) ex_C 5 (LStr "3", LStr "2") (leaf_ok 5%positive);
+    IAdf11 FIon None [(ex_C, [(1, (leaf_ok 6%positive))])] ].
 Example C06_nonvacuous :
   history_ok ex_root ex_history /\
   get ex_root (KPec PExc "c" 5 ("3", "2")%string) (run ex_history []) = Some 5%positive /\
